@@ -483,6 +483,22 @@ def gen_dt(rng, depth=0):
     return ['struct', {n: gen_dt(rng, depth + 1) for n in rng.sample(['i', 's', 'x', 'key2'], rng.choice([1, 2, 3]))}]
 
 
+def dt_catalogue():
+    """every container kind over every leaf kind, and the containers nested in each other over the leaves whose transport form
+    differs from the value (scaled integers, blobs): the datatype combinations a round trip has to survive, each met in every
+    run instead of when the random generator happens to build it"""
+    leaves = [['float', 0, 10], ['int', 0, 2 ** 40], ['scaled', 0.1, 0, 100], ['bool'], ['enum', {'a': 1, 'b': 2, 'c': 5}],
+              ['string', None, False], ['blob', 8]]
+    out = []
+    for leaf in leaves:
+        out += [['array', leaf, 1, 3], ['tuple', [leaf, ['int', 0, 10]]], ['struct', {'x': leaf, 'i': ['int', 0, 10]}]]
+    for leaf in (['scaled', 0.25, -10, 10], ['blob', 64]):
+        out += [['array', ['array', leaf, 1, 2], 1, 2], ['array', ['tuple', [leaf, ['bool']]], 1, 3], ['array', ['struct', {'s': leaf}], 1, 2],
+                ['tuple', [['array', leaf, 1, 3], ['string', 20, True]]], ['struct', {'key2': ['array', leaf, 1, 3]}],
+                ['struct', {'x': ['tuple', [leaf, leaf]]}]]
+    return out
+
+
 def gen_val(rng, d, valid=True):
     """plain value; valid=False: may be outside the limits (a reading may be), still of the right type"""
     k = d[0]
@@ -1948,6 +1964,17 @@ def run(ctx):
             if n:
                 case['fault']['idx'] = rng.choice([0, 1, n - 4, n - 3, n - 2, n - 1, rng.randrange(n)]) % n
         check_case(ctx, res, spec, case, quick_crash=None if big else 4)
+    # ---- datatype catalogue: one persistent parameter of each combination, changed and saved twice; every save that reached
+    # the disk is followed by a restart judged by the round-trip monitor (plus everything else check_case does)
+    for d in dt_catalogue():
+        spec = {'params': [{'name': 'p0', 'dt': d, 'flag': 'on', 'write': False, 'readonly': False, 'default': gen_val(rng, d),
+                            'classflag': 'on'}], 'cfg': {}}
+        acts = []
+        for _ in range(2):
+            acts += [{'a': 'set', 'name': 'p0', 'val': gen_val(rng, d)}, {'a': 'save'}]
+        check_case(ctx, res, spec, {'acts': acts, 'file': None, 'stale': None, 'fault': None, 'buf': None},
+                   quick_crash=None if big else 3, kind='history')
+        res.count('catalogue.dt')
     for _ in range(ctx.budget(12, 40)):
         check_corruptions(ctx, res, gen_spec(rng, False), big)
     return res
